@@ -250,6 +250,24 @@ pub fn main(tier: &str, seed: u64, outdir: &str) {
     let mut rep = Report::new("C01");
     let thorough = tier == "thorough";
 
+    // ---- the real integrator (both kinetic-energy kinds, diagonal and low-rank transformations): a backward step undoes a forward step --
+    // what makes "the trajectory built from z' with the mirrored choices is the same trajectory" true of real trajectories (C02 owns the
+    // integrator; here only this one consequence for the tree is checked)
+    for case in 0..(if thorough { 4000u64 } else { 120 }) {
+        let mut r = Sm::new(seed, "C01-rev", case);
+        let n = 1 + r.below(12) as usize;
+        let lowrank = case % 2 == 1;
+        let cfg = crate::c02::Cfg { n, k: if lowrank { r.below(n as u64 + 1) as usize } else { 0 }, lowrank, exact_normal: case % 4 >= 2, target: (case % 5) as u8,
+            eps: (if r.coin() { 1.0 } else { -1.0 }) * r.log_uniform(1e-3, 1.0), seed: r.next(), scale_range: *r.pick(&[0.0, 1.0, 3.0]), fresh: false };
+        rep.evaluations += 1;
+        rep.hit(if cfg.exact_normal { "integrator.exact_normal" } else { "integrator.euclidean" });
+        if let Ok(out) = crate::c02::run(&cfg) {
+            if let Some((key, what)) = crate::c02::oracle(&cfg, &out) {
+                if key == "leapfrog.reversible" { rep.violation("c01.integrator_not_reversible", &what, json!({"kind": "rev", "cfg": cfg.to_json()})); }
+            }
+        }
+    }
+
     // ---- logaddexp: bit-exact against the translated definition
     for case in 0..(if thorough { 120000 } else { 3000 }) {
         let mut r = Sm::new(seed, "C01-lae", case);
@@ -399,6 +417,10 @@ pub fn main(tier: &str, seed: u64, outdir: &str) {
 
 pub fn replay(v: &serde_json::Value) -> bool {
     match v["kind"].as_str().unwrap_or("") {
+        "rev" => {
+            let cfg = crate::c02::Cfg::from_json(&v["cfg"]);
+            match crate::c02::run(&cfg) { Ok(out) => { let r = crate::c02::oracle(&cfg, &out); println!("replay: {:?}", r); matches!(r, Some((k, _)) if k == "leapfrog.reversible") } Err(e) => { println!("replay: run error {e}"); false } }
+        }
         "lae" => {
             let a = f64::from_bits(v["a"].as_u64().unwrap());
             let b = f64::from_bits(v["b"].as_u64().unwrap());
